@@ -745,6 +745,32 @@ def iterator_names(toks):
     return names
 
 
+NOT_A_TYPE = set("return else case goto new delete throw typename class struct const operator sizeof co_return".split())
+
+
+def nearest_declared_type(toks, i):
+    """the last identifier of the declared type in the nearest declaration of the identifier toks[i] that precedes
+    position i (`T name =`, `const T& name,`, `A::B<C> name;` ...), or None when no declaration precedes.  A name
+    that the file declares as a RandomAccessIterator somewhere may be re-used for something else in another function
+    (`Neighbors::const_iterator iter`): the nearest declaration decides what the name is at this place."""
+    name = toks[i]
+    p = i - 1
+    while p > 0:
+        if toks[p] == name and p + 1 < len(toks) and toks[p + 1] in ("=", ";", ",", ")", ":", "(", "{"):
+            q = p - 1
+            while q >= 0 and toks[q] in ("&", "*", "&&"):
+                q -= 1
+            if q >= 0 and q != p - 1 and not (is_ident(toks[q]) or toks[q] == ">"):
+                q = -1          # `x = * name ;` and the like: an expression, not a declaration
+            if q >= 0 and toks[q] == ">":
+                return "<template-id>"
+            if q >= 0 and is_ident(toks[q]) and toks[q] not in NOT_A_TYPE and \
+                    (q == 0 or toks[q - 1] not in (".", "->")):
+                return toks[q]
+        p -= 1
+    return None
+
+
 def enclosing_callee(toks, i):
     """tokens of the callee of the innermost call whose argument list contains position i (or None)"""
     depth, k = 0, i - 1
@@ -801,6 +827,10 @@ def parse_derefs(repo):
                     site = i
                 if site is None:
                     continue
+                namepos = site if toks[site] in its else (site + 1 if toks[site + 1] in its else site + 2)
+                declared = nearest_declared_type(toks, namepos)
+                if declared is not None and declared != "RandomAccessIterator":
+                    continue        # the nearest declaration gives this name another type: not a data iterator here
                 callee = enclosing_callee(toks, site)
                 ok = callee is not None and len(callee) == 3 and callee[2] in CB_MEMBERS
                 lo = max(0, site - 6)
